@@ -1,6 +1,6 @@
 (* ComposeMapped.v — C11 end to end: the multiset queries of MappedPGMIndex over a container built by
    from_range, with the range supplied by the index contract (ComposeIdx.search_contract). *)
-Require Import Base Fp PlaModel GenLeaf IndexModel IndexProofs MappedModel MappedQueries IdxChain ComposeIdx.
+Require Import Base Fp PlaModel GenLeaf IndexModel IndexProofs MappedModel MappedQueries IdxChain ComposeIdx ComposeBuild.
 From Coq Require Import ZifyBool.
 Local Open Scope Z_scope.
 
@@ -74,5 +74,24 @@ Section C11_all.
   Proof. exact (mapped_range_ok_at c data m Hc Hd Hm Hs32 q Hq (Hf _ _)). Qed.
 End C11_all.
 
+(* C11 with the construction: from_range succeeds (ComposeBuild.build_total) and the four queries are
+   exact, for up to 2^30 keys; no hypothesis on the built container is left *)
+Theorem C11_mapped_total c data :
+  idx_ok c -> cfg_small c -> float_ok_all c -> data_ok c data -> zlen data <= 2 ^ 30 ->
+  exists m, from_range c data = Ok m /\ mp_data m = data /\
+    forall q, q < sentinel c ->
+      mapped_lower_bound c m q = Ok (lb data q) /\
+      mapped_upper_bound c m q = Ok (ub data q) /\
+      mapped_count c m q = Ok (ub data q - lb data q) /\
+      mapped_contains c m q = Ok (existsb (Z.eqb q) data).
+Proof.
+  intros Hc Hsm Hf Hd Hn. destruct (build_total c data Hc Hsm Hd Hn) as (ix & E & Hs32).
+  assert (Em : from_range c data = Ok (mkMapped ix data (serialize c ix data))).
+  { unfold from_range. rewrite E. reflexivity. }
+  eexists. split; [exact Em|]. split; [reflexivity|]. intros q Hq.
+  exact (C11_mapped_at c data _ q Hc Hd Em Hs32 Hq (Hf _ _)).
+Qed.
+
+Print Assumptions C11_mapped_total.
 Print Assumptions C11_mapped_at.
 Print Assumptions C11_count.
